@@ -205,15 +205,21 @@ def run(case, rec):
             return est
 
     dampings = [None] if kind == "Trend" else DAMP
-    wkinds = ["none", "ramp", "ultra"] if vector else ["none", "const", "ramp", "tiny", "ultra"]
+    # "mixdt" (round 8, seed C02-15): an integer-dtype east component next to a non-integer float north component, for weights and data
+    wkinds = ["none", "ramp", "ultra", "mixdt"] if vector else ["none", "const", "ramp", "tiny", "ultra"]
     nrow = 2 * npts if vector else npts
     datas = [np.eye(nrow)[i] for i in range(nrow)] + [np.arange(1.0, nrow + 1) * 0.5 - 1.0]
+    if vector:
+        datas.append(np.concatenate([np.arange(npts) * 2.0 - 3.0, np.arange(npts) * 0.5 - 1.25]))
     ncompared = 0
     for damping in dampings:
         for wk in wkinds:
             if vector:
-                w = None if wk == "none" else (_weights(wk, npts, 0), _weights(wk, npts, 1))
-                wref = None if w is None else np.concatenate(w)
+                if wk == "mixdt":
+                    w = (np.arange(1, npts + 1, dtype=np.int64), np.arange(float(npts), 0.0, -1.0) + 0.25)
+                else:
+                    w = None if wk == "none" else (_weights(wk, npts, 0), _weights(wk, npts, 1))
+                wref = None if w is None else np.concatenate([np.asarray(x, dtype=float) for x in w])
             else:
                 w = _weights(wk, npts)
                 wref = w
@@ -228,9 +234,15 @@ def run(case, rec):
                 rec.skip("ill-conditioned (bound > 1e-3 relative): not compared")
                 continue
             Jqs = Jq / ref0["scale"]
+            est = None
             for di, d in enumerate(datas):
-                est = make(damping)
+                # every other data vector REFITS the instance that was fitted to the previous vector on the same points (round 8, seed
+                # C02-16: a per-instance Jacobian cache scaled in place by the solver); the rest use a new instance
+                if est is None or di % 2 == 0:
+                    est = make(damping)
                 dd = (d[:npts], d[npts:]) if vector else d
+                if vector and di == len(datas) - 1:
+                    dd = (d[:npts].astype(np.int64), d[npts:])
                 if npts % 2 == 0 and (di + len(case["pts"])) % 3 == 0:
                     # the same points, data and weights as 2 x n/2 arrays (gridded input): seed C02-13, components stacked row-wise
                     r2 = lambda a: None if a is None else (tuple(x.reshape(2, -1) for x in a) if isinstance(a, tuple) else a.reshape(2, -1))
